@@ -102,3 +102,47 @@ func VerifC14UnsubscribeQueued() {
 	vAssert(countType(conn, packet.PINGRESP) == 1, "the broker still answers the client")
 	vCover("c14-unsubscribe-queued-end")
 }
+
+// VerifC14SlowSubscriber: a subscriber that stops acknowledging fills its window (1) and its
+// queue (1); another client's publish waits for room (MemoryBackend's back-pressure). When the
+// slow subscriber's connection ends, the waiting publisher is released, the subscriber is
+// terminated exactly once, and the broker keeps serving everybody else.
+func VerifC14SlowSubscriber() {
+	be := newRecBackend()
+	be.SessionQueueSize = 1
+	be.ClientInflightMessages = 1
+	s, sconn := startClient(be, mkConnect("s", vBool("clean"), nil), false)
+	sub := packet.NewSubscribe()
+	sub.ID = 1
+	sub.Subscriptions = []packet.Subscription{{Topic: "t", QOS: 1}}
+	sconn.in <- sub
+	vQuiesce()
+	pub, _ := mkClient(be.MemoryBackend, "p", true)
+	done := make(chan int, 1)
+	go func() {
+		for i := 0; i < 3; i++ {
+			be.MemoryBackend.Publish(pub, &packet.Message{Topic: "t", Payload: []byte{byte(i + 1)}, QOS: 1}, nil)
+		}
+		done <- 1
+	}()
+	vQuiesce()
+	vAssert(countType(sconn, packet.PUBLISH) == 1, "one message in flight, one queued, the third publish waits for room")
+	switch vChoice("how", 3) {
+	case 0:
+		close(sconn.in) // network error
+	case 1:
+		s.Close() // closed by the broker
+	case 2:
+		sconn.in <- mkConnect("s", true, nil) // out-of-protocol packet
+	}
+	<-done // the waiting publisher is released
+	vQuiesce()
+	vAssert(sconn.isClosed() && chanClosed(s.Closed()), "the slow subscriber's connection is closed and its closed signal fires")
+	vAssert(be.terminatesOf(s) == 1, "the backend is told about its termination exactly once")
+	w, ws := mkClient(be.MemoryBackend, "w", true)
+	vAssert(be.MemoryBackend.Subscribe(w, []packet.Subscription{{Topic: "t", QOS: 0}}, nil) == nil, "another client can still subscribe")
+	vAssert(be.MemoryBackend.Publish(pub, &packet.Message{Topic: "t", Payload: []byte{9}}, nil) == nil, "and publish")
+	vAssert(queued(ws) == 1, "and receive")
+	vAssert(vLive() == 0, "no goroutine is left blocked")
+	vCover("c14-slow-subscriber-end")
+}
